@@ -57,6 +57,9 @@ def seq_of(rng, cls, L):
         x = rng.choice([0.0, 0.0, 1.0, -1.0, 0.05], size=L)
     elif cls == "plateau":
         x = np.concatenate([np.full(L // 2, 1.0), np.full(L - L // 2, 5.0)]) + rng.normal(size=L) * 1e-3
+    elif cls == "fine":
+        # increments far below single precision: values must be compared as the doubles they are
+        x = float(rng.choice([1.0, 1000.0, -3.0])) * (1.0 + 1e-10 * np.arange(L) * (1 + rng.integers(0, 3)))
     else:
         x = rng.normal(size=L)
     return [float(v) for v in x]
@@ -66,15 +69,18 @@ def cases(tier, seed):
     out = []
     rng = np_rng(ID, seed, "cases")
     n = 600 if tier == "quick" else 60000
-    classes = ["monotone", "geometric", "oscillating", "constant", "zeros", "plateau", "random"]
+    classes = ["monotone", "geometric", "oscillating", "constant", "zeros", "plateau", "random", "fine"]
     for i in range(n):
         L = int(rng.integers(2, 13))
         cls = classes[i % len(classes)]
         vals = seq_of(rng, cls, L)
         var = [float(v) for v in rng.choice([0.0, 0.01, 1.0, 4.0], size=L, p=[0.1, 0.3, 0.3, 0.3])]
-        crit = CRITS[i % 3]
+        crit = CRITS[(i // len(classes)) % 3]
+        tol = TOLS[int(rng.integers(0, len(TOLS)))]
+        if cls == "fine":
+            tol = float(rng.choice([1e-12, 1e-13, 3e-11]))
         out.append({"t": "run", "vals": vals, "vars": var, "p": int(rng.integers(1, 6)), "pe": int(rng.integers(1, 4)),
-                    "ps": int(rng.integers(1, 4)), "tol": TOLS[int(rng.integers(0, len(TOLS)))], "crit": crit,
+                    "ps": int(rng.integers(1, 4)), "tol": tol, "crit": crit,
                     "ev": "obs" if crit == "variance" or rng.random() < 0.4 else "metric", "dep": crit == "variance" and i % 2 == 0,
                     "cls": cls, "seed": seed})
     out.append({"t": "ctor", "seed": seed})
